@@ -779,6 +779,35 @@ def r_memo_new(ctx):
                            "leaf value overwritten at each solve (derived objects recompute, see above)" if ok else
                            "`%s` is computed once and returned from the attribute afterwards; nothing on the solve path refreshes it, so after a re-solve "
                            "the method answers with the result of an earlier solve" % a, loc(fn, fn))
+    # the same pattern on any receiver, in methods and module-level functions: `x.A` tested against None, assigned, and what is returned comes
+    # from it -- a result cached on a model object survives every later solve and edit
+    for fn in repo.all_functions():
+        c = getattr(fn, "_cls", None)
+        if fn.name == "__init__":
+            continue
+        tested = set()
+        for t in ast.walk(fn):
+            if isinstance(t, ast.Compare) and len(t.ops) == 1 and isinstance(t.ops[0], (ast.Is, ast.IsNot, ast.Eq, ast.NotEq)) \
+                    and isinstance(t.comparators[0], ast.Constant) and t.comparators[0].value is None:
+                d = dotted(t.left)
+                if d and d.count(".") == 1 and not d.startswith("self."):
+                    tested.add(d)
+        for a in sorted(tested):
+            assigned = [s0 for s0 in flow.stmts_of(fn, ast.Assign) if any(dotted(t) == a for t in s0.targets)]
+            derived = {a}
+            for s0 in flow.stmts_of(fn, ast.Assign):
+                if any(isinstance(n0, ast.Attribute) and dotted(n0) == a for n0 in ast.walk(s0.value)):
+                    for t in s0.targets:
+                        for t1 in (t.elts if isinstance(t, (ast.Tuple, ast.List)) else [t]):
+                            if isinstance(t1, ast.Name):
+                                derived.add(t1.id)
+            returned = any(isinstance(r, ast.Return) and r.value is not None and
+                           any((dotted(n0) in derived) for n0 in ast.walk(r.value) if isinstance(n0, (ast.Name, ast.Attribute))) for r in ast.walk(fn))
+            if assigned and returned:
+                n += 1
+                ctx.ob("R-MEMO", "%s::memo %s" % (qualname(fn), a), False,
+                       "`%s` is computed once, stored on the object and answered from there afterwards; nothing on the solve path refreshes it, so after "
+                       "a re-solve or an edit of the model the function answers with an earlier result" % a, loc(fn, assigned[0]))
     ctx.count("memo patterns", n)
 
 
